@@ -468,7 +468,7 @@ def plan_C04(ctx):
 
 def plan_C17(ctx):
     ctx.rule = ("TLC explores every interleaving (one step per call begin / log line / call end) of 2 threads x every pair of 20 short programs and 3 threads x every triple of 7 programs "
-                "over a shared pool of %d rules x %d data (TLC also checks that this model refines the protocol proved with TLAPS in CallsProof.tla), 8 and 16 threads by program assignment only: history independence, inputs untouched, stdout = interleaving of whole lines in per-thread order, termination; "
+                "over a shared pool of %d rules x %d data (TLC also checks that this model refines the protocol proved with TLAPS in CallsProof.tla), 8 and 16 threads by program assignment only (incl. the cross-talk programs: every ordered pair of 8 operators of different coercion families on one leaf value, 128 calls per thread): history independence, inputs untouched, stdout = interleaving of whole lines in per-thread order, termination; "
                 "each program assignment is executed on real threads over shared inputs (%d staggered concurrent rounds + a sequential and a reversed pass), every call's "
                 "outcome compared with the isolated specification outcome, inputs snapshotted before/after, stdout lines counted and parsed, per-thread hook-event streams "
                 "validated by TLC against the machine" % (ncorp("C17.json", "R17"), ncorp("C17.json", "D17"), 20 if ctx.deep else 5))
@@ -766,7 +766,7 @@ def plan_C01(ctx):
                 "values (all 64-bit / double boundaries, 4-byte characters, odd path strings) in every position of otherwise benign operand lists and as the data under lookups "
                 "(totality of the spec; termination, deadlock-freedom and the stack bound of the machine are model-checked on the C05 family); (ii) every case is replayed in THREE build "
                 "profiles (debug, release, release+overflow-checks): any panic, abort or hang is a violation, Ok/Err must be the specification's; (iii) 37 nesting shapes x levels up to and "
-                "beyond JSON depth 128 are built as text and evaluated in child processes on 8 MiB and 2 MiB stacks; (iv) a sample of the family is run through the real CLI binary "
+                "beyond JSON depth 128 are built as text and evaluated in child processes on 8 MiB and 2 MiB stacks; every returned error is rendered (Display, Debug) inside the guarded call; (iv) a sample of the family is run through the real CLI binary "
                 "(exit status 0/1, no signal, no panic message) and the built Python extension (only ValueError)")
     profiles = ("debug", "release", "relchk")
     cases = ctx.mc("MC_C01")
